@@ -48,7 +48,7 @@ impl Generator {
             "boundary" => 10 + rng.below(40) as usize,
             _ => { let long = rng.chance(20); 20 + rng.below(if long { 380 } else { 120 }) as usize }
         };
-        let keys = rng.pick(&[2u64, 3, 5, 8]);
+        let keys = match profile { "pressure" => rng.pick(&[6u64, 8, 12, 16]), _ => rng.pick(&[2u64, 3, 5, 8]) };
         let await_percent = match profile {
             "burst" => rng.pick(&[0u64, 10, 30]),
             _ => rng.pick(&[100u64, 90, 60, 20]),
@@ -61,7 +61,7 @@ impl Generator {
         let rng = &mut self.rng;
         let profile = self.profile.as_str();
         let max: i64 = match profile {
-            "pressure" => rng.pick(&[5i64, 10, 20, 40]),
+            "pressure" => rng.pick(&[8i64, 10, 12, 20, 40]),
             "boundary" => rng.pick(&[10i64, 100, i64::MAX, i64::MAX - 5]),
             "nopressure" => rng.pick(&[10_000i64, 1_000_000]),
             _ => rng.pick(&[10i64, 20, 50, 100, 1000]),
@@ -71,7 +71,7 @@ impl Generator {
             shards: rng.pick(&[2usize, 2, 4, 256]),
             cmdcap: match profile { "burst" => rng.pick(&[1usize, 1, 2, 3]), _ => rng.pick(&[1usize, 2, 4, 64, 32768]) },
             pool: rng.pick(&[1usize, 1, 2, 3]),
-            buf: match profile { "reads" => rng.pick(&[1usize, 1, 2, 3]), _ => rng.pick(&[1usize, 2, 3, 64]) },
+            buf: match profile { "reads" | "pressure" => rng.pick(&[1usize, 1, 2, 3]), _ => rng.pick(&[1usize, 2, 3, 64]) },
             counters: match profile { "boundary" => rng.pick(&[1u64, 2, 3]), "reads" => rng.pick(&[1u64, 2, 3, 5, 16]), _ => rng.pick(&[1u64, 2, 3, 10, 16, 100]) },
             hash: rng.pick(&[0u64, 0, 1, 2]),
             wbase: rng.pick(&[1i64, 1, 2, 5]),
@@ -93,6 +93,10 @@ impl Generator {
         match self.profile.as_str() {
             "boundary" => self.rng.pick(&[1i64, 2, 24, 25, max / 2, max - 1, max, i64::MAX, i64::MAX - 24, i64::MAX - 23]).max(1),
             "nopressure" => 1 + self.rng.below(5) as i64,
+            "pressure" => {
+                // mostly light keys (many residents), now and then one that needs several victims
+                if self.rng.chance(75) { 1 + self.rng.below(2) as i64 } else { self.rng.pick(&[3i64, 4, 5, 6, max / 2, max - 1, max, max + 1]).max(1) }
+            }
             _ => {
                 if self.rng.chance(70) { 1 + self.rng.below((max as u64 / 2).clamp(1, 12)) as i64 }
                 else { self.rng.pick(&[1i64, 2, 24, 25, 26, max / 2, max - 1, max, max + 1]).max(1) }
@@ -169,7 +173,7 @@ impl Generator {
         if !resumable.is_empty() && self.rng.chance(60) { return Some(Ev::Resume(self.rng.pick(&resumable))); }
         let free = engine.free_client();
         let (p_write, p_read, p_worker, p_sweep, p_consumer, p_advance) = match self.profile.as_str() {
-            "pressure" => (40, 30, 20, 2, 5, 1),
+            "pressure" => (38, 30, 18, 2, 10, 2),
             "ttl" => (35, 15, 15, 15, 2, 15),
             "burst" => (50, 10, 25, 3, 2, 3),
             "reads" => (15, 55, 8, 2, 15, 2),
